@@ -333,8 +333,12 @@ func typedLists(n *Node, v Val) Val {
 	case "ptr":
 		return typedLists(n.Elem, v)
 	case "slice":
-		if v.K != "l" || !n.Elem.IsPrim() || n.Elem.Kind == "time" || len(v.L) == 0 {
+		if v.K != "l" || !n.Elem.IsPrim() || n.Elem.Kind == "time" {
 			return v
+		}
+		if len(v.L) == 0 {
+			// a typed nil slice is not nil: a present, empty list of that type
+			return Val{K: "tl", S: n.Elem.Kind, B: true}
 		}
 		want := map[string]string{"string": "s", "int": "i", "float": "f", "bool": "b"}[n.Elem.Kind]
 		for _, e := range v.L {
